@@ -89,6 +89,14 @@ CHECKS.update({
             "TLA+ spec + TLC model checking + trace validation", "5 (C18)"),
 })
 
+CHECKS.update({
+    "C19": ("model_checking", "TLC explores every interleaving of the batcher, main and worker threads and every regrouping for every configuration of the "
+            "scope (termination under fairness, no temp name written twice, final = merge of all rows); runs of the real CLI binaries "
+            "(hook H4: batch events, seeded delays) over inputs x batch sizes x fd limits x threads x schedules are validated by TLC "
+            "file by file.",
+            "TLA+ spec + TLC model checking (safety and liveness) + trace validation of real CLI runs", "5 (C19)"),
+})
+
 NOT_YET = {
 }
 
